@@ -35,6 +35,20 @@ func NewRegex(value bytes.Bytes) *Regex {
 	}
 }
 
+// newRegexRule is NewRegex for a rule written in a schema: an expression that
+// does not compile is the author's mistake and is reported as such.
+func newRegexRule(value bytes.Bytes) *Regex {
+	defer func() {
+		if r := recover(); r != nil {
+			if _, ok := r.(string); ok { // regexp.MustCompile panics with a string
+				panic(errs.ErrRegexInvalid.F(value.String()))
+			}
+			panic(r)
+		}
+	}()
+	return NewRegex(value)
+}
+
 func (Regex) IsJsonTypeCompatible(t internalJSON.Type) bool {
 	return t == internalJSON.TypeString
 }
